@@ -208,6 +208,7 @@ type Exec struct {
 	// side tables (per path)
 	locks  map[lockKey]int // 0 free, -1 write-held, n>0 readers
 	pools  map[lockKey][]Value
+	framePick int // runtime frame stub: which of frameFiles this path's (single) program counter resolves to; -1 = not chosen yet
 	wgs    map[lockKey]int
 	mon    *monitor
 	ghost  map[string]Value
@@ -339,6 +340,7 @@ func (e *Exec) resetPath() {
 	e.inited = map[*ssa.Package]bool{}
 	e.locks = map[lockKey]int{}
 	e.pools = map[lockKey][]Value{}
+	e.framePick = -1
 	e.wgs = map[lockKey]int{}
 	e.mon = nil
 	e.ghost = map[string]Value{}
